@@ -413,7 +413,8 @@ def _fit(v: Decimal, precision: int, scale: int) -> Decimal:
     if not (1 <= precision <= 38 and 0 <= scale <= precision):
         raise NotDemanded("precision/scale outside 1..38 / 0..p")
     q = v.quantize(Decimal(1).scaleb(-scale), rounding=decimal.ROUND_HALF_UP, context=decimal.Context(prec=80))
-    if abs(q) >= Decimal(10) ** (precision - scale):
+    # copy_abs / an integer power: plain abs() and Decimal ** would round to the 28 digits of the default context
+    if q.copy_abs() >= Decimal(10 ** (precision - scale)):
         raise SfError(f"numeric value {v} is out of range for NUMBER({precision},{scale})")
     return q
 
@@ -431,7 +432,7 @@ def to_decimal(x, precision: int = 38, scale: int = 0):
         # binary fractions: only demanded where the decimal expansion of the double is not at a rounding midpoint
         v = Decimal(x)
         q = _fit(v, precision, scale)
-        if abs(v - q) == Decimal(1).scaleb(-scale) / 2:
+        if (v - q).copy_abs() == Decimal(1).scaleb(-scale) / 2:
             raise NotDemanded("FLOAT exactly at a rounding midpoint")
         return q
     if isinstance(x, (int, Decimal)):
